@@ -27,6 +27,8 @@
  */
 #include "stdoutoutput.h"
 
+#include "util/file-snoopy.h"
+
 #include <stdio.h>
 
 
@@ -46,13 +48,8 @@
  */
 int snoopy_output_stdoutoutput (char const * const logMessage, __attribute__((unused)) char const * const arg)
 {
-    int charCount;
-
-    charCount = fprintf(stdout, "%s\n", logMessage);
-
-    // Hand the record to the OS now: when stdout is a pipe or a file it is fully buffered, and
-    // whatever still sits in the stdio buffer is lost once the real exec replaces the process image
-    fflush(stdout);
-
-    return charCount;
+    // stdout belongs to the calling program: when it is a pipe or a file it is fully buffered, so the record is
+    // flushed right away (it would be lost once the real exec replaces the process image) - but never waited for,
+    // and never at the price of a SIGPIPE
+    return snoopy_util_file_writeLineToCallerStream(stdout, logMessage);
 }
